@@ -147,6 +147,9 @@ def _cat(n):
         # a preamble and a braced value ending in a backslash (a TeX control space before the delimiter)
         (f"@preamble{{tex {n}\\ }}", ("preamble", f"tex {n}\\")),
         (f"@string{{w{n} = {{x{n}\\ }}}}", ("string", f"w{n}", f"{{x{n}\\ }}")),
+        # letters whose lower() / upper() / casefold() differ in length (U+0130, sharp s, a ligature) in free text and in a comment
+        (f"\u0130stanbul stra\xdfe {n} \ufb01n", None),
+        (f"@comment{{\u0130 \xdf \ufb01 {n}}}", ("comment", f"\u0130 \xdf \ufb01 {n}")),
         # entry types that merely contain or begin with a keyword
         (f"@ReviewComment{{r{n}, a = {{1}}}}", ("entry", "reviewcomment", f"r{n}", (("a", "{1}"),))),
         (f"@Commentary {{y{n}, title = {{T}}}}", ("entry", "commentary", f"y{n}", (("title", "{T}"),))),  # (a biblatex type)
